@@ -1,4 +1,4 @@
-import PPLV.Wrap.GridWrapOutcome
+import PPLV.Wrap.GridWrapModes
 import PPLV.Props.C05
 import PPLV.Props.C17
 
@@ -6,20 +6,24 @@ import PPLV.Props.C17
 # C17 — `Grid::wrap_assign` never discards a wrapped image of an integer point (stage 3)
 
 `gridWrapAssign n cfg G` (`PPLV/Wrap/GridWrap.lean`) is the code-shaped model of
-`Grid::wrap_assign(vars, w, r, o, cs_p, complexity_threshold, wrap_individually)` (src/Grid_public.cc:2968-3168)
-on a grid of space dimension `n` whose minimized generators are `G` (K2's generator form, any dimension, rational
-coordinates); the member functions it calls are K2's verified operations (table in that file).  `gridSet` is K2's
-point set (`C05.gridSet`).  The driver `pplv_gridwrap` compares the model's outcome with the real one on every
-generated case by K2's verified equality decider (`C05.equiv_iff`).
+`Grid::wrap_assign(vars, w, r, o, cs_p, complexity_threshold, wrap_individually)` (src/Grid_public.cc:2968-3182) AS IT
+IS WRITTEN NOW (with the repairs 3a4d83e of KF-C17-12 and 4614ba1 of KF-C17-13), on a grid of space dimension `n` whose
+minimized generators are `G` (K2's generator form, any dimension, rational coordinates); the member functions it
+calls are K2's verified operations (table in that file).  `gridWrapAssignBeforeFix` is the function before the two
+repairs, kept as a named historical witness.  `gridSet` is K2's point set (`C05.gridSet`).  The driver `pplv_gridwrap`
+compares the model's outcome with the real one on every generated case by K2's verified equality decider
+(`C05.equiv_iff`) and measures which variant the library implements (a regression is recognised).
 
-* `grid_wrap_sound_undefined`, `grid_wrap_sound_impossible`: full strength (every grid, `vars`, width ≥ 1,
-  signedness, guard within the space dimension).
-* `grid_wrap_sound_wraps_partial`: every call in which no wrapped variable goes through the branch of
-  Grid_public.cc:3118-3120 (`flawed cfg G = false`: a static property of the argument);
-  `grid_wrap_sound_wraps_fails`: that branch loses images on relational grids (KF-C17-12).
-* `grid_wrap_throws_fails`: a legal call can leave through `throw_invalid_generator` (KF-C17-13);
-  `grid_wrap_throws_only_without_images`: only when overflow wraps and no integer point has an image.
+* `grid_wrap_sound_wraps`, `grid_wrap_sound_undefined`, `grid_wrap_sound_impossible` (and `grid_wrap_sound` in the
+  `Spec.wrapImages` form shared with `C17.wrap_sound`): full strength — every grid, `vars`, width ≥ 1, signedness,
+  guard within the space dimension.
+* `grid_wrap_never_throws`: a legal call returns normally; `grid_wrap_dimension_exception`: exactly the illegal ones throw.
+* `grid_wrap_result_in_range_wraps`: what the code guarantees about the range.
 * `grid_wrap_guard_unused`: `*cs_p` is only dimension-checked.
+* historical (the function before the repairs): `grid_wrap_sound_wraps_before_fix_fails` (KF-C17-12: the unchanged-grid
+  branch lost images on relational grids), `grid_wrap_sound_wraps_before_fix_partial`,
+  `grid_wrap_throws_before_fix_fails` (KF-C17-13: a legal call left through `throw_invalid_generator`),
+  `grid_wrap_throws_before_fix_only_without_images`.
 -/
 namespace C17
 open PPLV.Lattice PPLV.Wrap PPLV.Wrap.GW
@@ -35,58 +39,11 @@ abbrev GridWrapLegal (n : Nat) (cfg : WrapCfg) : Prop := Legal n cfg
 /-- `*cs_p` is only dimension-checked (Grid_public.cc:2978-2983): two guards that pass the check give the same outcome -/
 theorem grid_wrap_guard_unused (n : Nat) (cfg : WrapCfg) (g : Option (List PPLV.Lin.Con)) (G : GridGens)
     (h1 : guardTooBig n cfg.guard = false) (h2 : guardTooBig n g = false) :
-    gridWrapAssign n { cfg with guard := g } G = gridWrapAssign n cfg G := by
-  unfold gridWrapAssign
-  simp only [h1, h2]
+    gridWrapAssign n { cfg with guard := g } G = gridWrapAssign n cfg G :=
+  gridWrapAssignV_guard_unused repaired n cfg g G h1 h2
 
 example : guardTooBig 2 (some [PPLV.Lin.geRow [1, 0] 3]) = false ∧ guardTooBig 2 (some [PPLV.Lin.geRow [0, 0, 1] 0]) = true := by
   decide
-
-/-! ## soundness, every overflow mode at once -/
-
-/-- every wrapped image (`Spec.WrapImage`: the specification shared with the generic algorithm, `C17.wrap_sound`) of a
-point of the argument is in the receiver after the call, which returns normally.  Missing for full strength: the
-calls with `flawed cfg G = true` (overflow wraps, a wrapped non-constant variable of frequency `2^w/f_d` whose
-representative value is not an integer), see `grid_wrap_sound_wraps_fails`. -/
-theorem grid_wrap_sound_partial (n : Nat) (cfg : WrapCfg) (hw : 0 < cfg.w) (G : GridGens)
-    (hnf : flawed cfg G = false) (hlegal : GridWrapLegal n cfg)
-    (p : Nat → Rat) (hp : p ∈ gridSet G) (p' : Nat → Rat) (himg : p' ∈ Spec.wrapImages cfg p) :
-    ∃ R, gridWrapAssign n cfg G = .ok R ∧ p' ∈ gridSet R :=
-  gridWrapAssign_sound n cfg hw G hnf hlegal p p' hp himg
-
-/-! ## `OVERFLOW_WRAPS` -/
-
-/-- the point obtained from `p` (integer values `z i` on `vars`) by wrapping those coordinates -/
-def wrappedPoint (cfg : WrapCfg) (p : Nat → Rat) (z : Nat → Int) : Nat → Rat :=
-  fun i => if i ∈ cfg.vars then ((wrapR cfg.r cfg.w (z i) : Int) : Rat) else p i
-
-/-- the guard-free configuration has the same outcome on a legal call -/
-theorem outcome_noguard (n : Nat) (cfg : WrapCfg) (G : GridGens) (hlegal : GridWrapLegal n cfg) :
-    gridWrapAssign n { cfg with guard := none } G = gridWrapAssign n cfg G := by
-  apply grid_wrap_guard_unused
-  · unfold guardTooBig
-    cases hg : cfg.guard with
-    | none => rfl
-    | some cs => have := hlegal.1 cs hg; simp only [decide_eq_false_iff_not]; omega
-  · rfl
-
-/-- **grid_wrap_sound_wraps** (partial): for every point `p` of the grid whose coordinates on `vars` are integers,
-the point obtained by wrapping those coordinates into `[min,max]` modulo `2^w` is in the result — for every grid,
-`vars`, width, signedness and (dimension-compatible) guard, provided no wrapped variable goes through the branch of
-Grid_public.cc:3118-3120.  Missing for full strength: exactly the calls of `grid_wrap_sound_wraps_fails`. -/
-theorem grid_wrap_sound_wraps_partial (n : Nat) (cfg : WrapCfg) (hw : 0 < cfg.w) (ho : cfg.o = .wraps) (G : GridGens)
-    (hnf : flawed cfg G = false) (hlegal : GridWrapLegal n cfg)
-    (p : Nat → Rat) (hp : p ∈ gridSet G) (z : Nat → Int) (hint : ∀ i ∈ cfg.vars, p i = (z i : Rat)) :
-    ∃ R, gridWrapAssign n cfg G = .ok R ∧ wrappedPoint cfg p z ∈ gridSet R := by
-  rw [← outcome_noguard n cfg G hlegal]
-  apply gridWrapAssign_sound n { cfg with guard := none } hw G hnf ⟨fun cs h => (by cases h), hlegal.2⟩ p _ hp
-  refine ⟨?_, ?_, ?_⟩
-  · intro i hi; simp only [wrappedPoint]; rw [if_neg hi]
-  · intro i hi
-    refine ⟨z i, hint i hi, ?_⟩
-    simp only [ho, wrappedPoint]
-    rw [if_pos hi]
-  · intro cs h; cases h
 
 namespace GridWitness
 
@@ -94,42 +51,127 @@ namespace GridWitness
 def G : GridGens := .gens { pt := [1/3, 1/3], params := [[256/3, 256/3]], lines := [] }
 /-- `A` to unsigned 8 bits, overflow wraps -/
 def cfg : WrapCfg := ⟨[0], 8, .unsigned, .wraps, none, 16, false⟩
-/-- what `Grid::wrap_assign` returns (the real library returns exactly this grid: case `gp8` of the harness) -/
+/-- what `Grid::wrap_assign` returned before 3a4d83e (case `gp8` of the harness on a library without the repair) -/
 def R : GridGens := .gens { pt := [-85, -85], params := [[256, 256]], lines := [] }
 
-theorem outcome : gridWrapAssign 2 cfg G = .ok R := by decide +kernel
+theorem outcome_before_fix : gridWrapAssignBeforeFix 2 cfg G = .ok R := by decide +kernel
 theorem isFlawed : flawed cfg G = true := by decide +kernel
 theorem p_mem : memB G [-341, -341] = true := by decide +kernel
 theorem img_not_mem : memB R [171, -341] = false := by decide +kernel
 theorem legal : Legal 2 cfg := ⟨fun cs h => (by cases h), by decide⟩
+theorem hint341 : ∀ i ∈ cfg.vars, Vec.toFun [-341, -341] i = (((fun _ => -341 : Nat → Int) i : Int) : Rat) := by
+  intro i hi
+  simp only [cfg, List.mem_cons, List.mem_nil_iff, or_false] at hi
+  subst hi; simp [Vec.toFun]
 
 /-- `A ∈ (1/2)ℤ`, `B = A + 1/2`, both wrapped -/
 def G2 : GridGens := .gens { pt := [0, 1/2], params := [[1/2, 1/2]], lines := [] }
 def cfg2 : WrapCfg := ⟨[0, 1], 8, .unsigned, .wraps, none, 16, false⟩
-theorem outcome2 : gridWrapAssign 2 cfg2 G2 = .invalidGenerator .empty := by decide +kernel
+theorem outcome2_before_fix : gridWrapAssignBeforeFix 2 cfg2 G2 = .invalidGenerator .empty := by decide +kernel
 theorem legal2 : Legal 2 cfg2 := ⟨fun cs h => (by cases h), by decide⟩
 
-/-- a relational grid on which the theorems apply: `A = B`, `A ≡ 0 (mod 300)` -/
+/-- a relational grid of frequency 300 > 2⁸ (the seeded change S-C17-2): `A = B`, `A ≡ 0 (mod 300)` -/
 def G3 : GridGens := .gens { pt := [0, 0], params := [[300, 300]], lines := [] }
 theorem notFlawed3 : flawed cfg G3 = false := by decide +kernel
 theorem p3_mem : memB G3 [300, 300] = true := by decide +kernel
+theorem hint300 : ∀ i ∈ cfg.vars, Vec.toFun [300, 300] i = (((fun _ => 300 : Nat → Int) i : Int) : Rat) := by
+  intro i hi
+  simp only [cfg, List.mem_cons, List.mem_nil_iff, or_false] at hi
+  subst hi; simp [Vec.toFun]
 
 end GridWitness
 
-/-- **KF-C17-12**: overflow wraps, `A = B` and `3A ≡ 1 (mod 256)`, `A` wrapped to unsigned 8 bits: `frequency_no_check`
-reports frequency `256/3` and the representative `1/3`; the branch of Grid_public.cc:3118-3120 only adds `A ≡ 0 (mod 1)`,
-the result is `{A = B, A ≡ 171 (mod 256)}`; the point `(-341,-341)` wraps to `(171,-341)`, which is lost. -/
-theorem grid_wrap_sound_wraps_fails :
+/-! ## soundness, every overflow mode at once -/
+
+/-- **grid_wrap_sound**: every wrapped image (`Spec.WrapImage`: the specification shared with the generic algorithm,
+`C17.wrap_sound`) of a point of the argument is in the receiver after the call, which returns normally — every grid,
+`vars`, width ≥ 1, signedness, overflow mode, guard within the space dimension. -/
+theorem grid_wrap_sound (n : Nat) (cfg : WrapCfg) (hw : 0 < cfg.w) (G : GridGens) (hlegal : GridWrapLegal n cfg)
+    (p : Nat → Rat) (hp : p ∈ gridSet G) (p' : Nat → Rat) (himg : p' ∈ Spec.wrapImages cfg p) :
+    ∃ R, gridWrapAssign n cfg G = .ok R ∧ p' ∈ gridSet R :=
+  gridWrapAssign_sound n cfg hw G hlegal p p' hp himg
+
+/-- every variant of the function the driver can measure (`Repairs`: each of the two repairs present or not): sound
+whenever the repair of KF-C17-12 is present or the branch is not taken -/
+theorem grid_wrap_sound_variant (fx : Repairs) (n : Nat) (cfg : WrapCfg) (hw : 0 < cfg.w) (G : GridGens)
+    (hnf : fx.kf12 = true ∨ flawed cfg G = false) (hlegal : GridWrapLegal n cfg)
+    (p : Nat → Rat) (hp : p ∈ gridSet G) (p' : Nat → Rat) (himg : p' ∈ Spec.wrapImages cfg p) :
+    ∃ R, gridWrapAssignV fx n cfg G = .ok R ∧ p' ∈ gridSet R :=
+  gridWrapAssignV_sound fx n cfg hw G hnf hlegal p p' hp himg
+
+example : gridWrapAssignV ⟨true, false⟩ 2 ⟨[0], 8, .unsigned, .wraps, none, 16, false⟩
+    (.gens { pt := [1/3, 1/3], params := [[256/3, 256/3]], lines := [] }) =
+    .ok (.gens { pt := [-85, -85], params := [[256], [256, 256]], lines := [] }) := by decide +kernel
+
+/-! ## `OVERFLOW_WRAPS` -/
+
+/-- **grid_wrap_sound_wraps**: for every point `p` of the grid whose coordinates on `vars` are integers (`z`), the point
+obtained by wrapping those coordinates into `[min,max]` modulo `2^w` (`wrappedPoint cfg p z`) is in the result — every
+grid, `vars`, width ≥ 1, signedness and (dimension-compatible) guard. -/
+theorem grid_wrap_sound_wraps (n : Nat) (cfg : WrapCfg) (hw : 0 < cfg.w) (ho : cfg.o = .wraps) (G : GridGens)
+    (hlegal : GridWrapLegal n cfg)
+    (p : Nat → Rat) (hp : p ∈ gridSet G) (z : Nat → Int) (hint : ∀ i ∈ cfg.vars, p i = (z i : Rat)) :
+    ∃ R, gridWrapAssign n cfg G = .ok R ∧ wrappedPoint cfg p z ∈ gridSet R :=
+  wraps_V repaired n cfg hw ho G (Or.inl rfl) hlegal p hp z hint
+
+/-- the witness of KF-C17-12: the function as it is now keeps the image `(171,-341)` of `(-341,-341)` -/
+example : ∃ R, gridWrapAssign 2 GridWitness.cfg GridWitness.G = .ok R ∧
+    wrappedPoint GridWitness.cfg (Vec.toFun [-341, -341]) (fun _ => -341) ∈ gridSet R :=
+  grid_wrap_sound_wraps 2 GridWitness.cfg (by decide) rfl GridWitness.G GridWitness.legal
+    (Vec.toFun [-341, -341]) ((C05.memB_iff _ _).mp GridWitness.p_mem) (fun _ => -341) GridWitness.hint341
+
+/-- frequency 300 above 2⁸ on a relational grid (S-C17-2) -/
+example : ∃ R, gridWrapAssign 2 GridWitness.cfg GridWitness.G3 = .ok R ∧
+    wrappedPoint GridWitness.cfg (Vec.toFun [300, 300]) (fun _ => 300) ∈ gridSet R :=
+  grid_wrap_sound_wraps 2 GridWitness.cfg (by decide) rfl GridWitness.G3 GridWitness.legal
+    (Vec.toFun [300, 300]) ((C05.memB_iff _ _).mp GridWitness.p3_mem) (fun _ => 300) GridWitness.hint300
+
+/-- **grid_wrap_result_in_range_wraps** (what the code guarantees about the range; a grid cannot express `[min,max]`):
+overflow wraps; a wrapped variable `x` that is an integer constant of the argument, or whose frequency is exactly `2^w`
+with an integer representative (`frequency_no_check` returns `f_n ∈ {0, 2^w}`, `v_d = 1`), has an in-range integer value
+at every point of the result, whatever the other wrapped variables are. -/
+theorem grid_wrap_result_in_range_wraps (n : Nat) (cfg : WrapCfg) (hw : 0 < cfg.w) (ho : cfg.o = .wraps)
+    (gr : Gens) (x : Nat) (hx : x ∈ cfg.vars) (f_n f_d v_n : Int)
+    (hfreq : frequencyNoCheck gr (unit x) = some (f_n, f_d, v_n, 1)) (he : f_n = 0 ∨ f_n = wrapFrequency cfg.w)
+    (R : GridGens) (hR : gridWrapAssign n cfg (.gens gr) = .ok R) :
+    ∀ u ∈ gridSet R, ∃ z : Int, u x = (z : Rat) ∧ inRange cfg.r cfg.w z :=
+  gridWrapAssignV_in_range repaired n cfg hw ho gr x hx f_n f_d v_n hfreq he R hR
+
+/-- `{(a, b) : a = 200, b ≡ 5 (mod 256)}`, both to signed 8 bits: `a = -56`, `b = 5` -/
+example : frequencyNoCheck { pt := [200, 5], params := [[0, 256]], lines := [] } (unit 1) = some (256, 1, 5, 1) ∧
+    gridWrapAssign 2 ⟨[0, 1], 8, .signed, .wraps, none, 16, false⟩ (.gens { pt := [200, 5], params := [[0, 256]], lines := [] })
+      = .ok (.gens { pt := [-56, 5], params := [], lines := [] }) := by
+  constructor <;> decide +kernel
+
+/-! ### the function before the repair 3a4d83e (historical witness of KF-C17-12) -/
+
+/-- before the repair: every call in which no wrapped variable went through the unchanged-grid branch
+(`flawed cfg G = false`: a static property of the argument).  Missing for full strength: exactly the calls of
+`grid_wrap_sound_wraps_before_fix_fails`. -/
+theorem grid_wrap_sound_wraps_before_fix_partial (n : Nat) (cfg : WrapCfg) (hw : 0 < cfg.w) (ho : cfg.o = .wraps) (G : GridGens)
+    (hnf : flawed cfg G = false) (hlegal : GridWrapLegal n cfg)
+    (p : Nat → Rat) (hp : p ∈ gridSet G) (z : Nat → Int) (hint : ∀ i ∈ cfg.vars, p i = (z i : Rat)) :
+    ∃ R, gridWrapAssignBeforeFix n cfg G = .ok R ∧ wrappedPoint cfg p z ∈ gridSet R :=
+  wraps_V beforeFix n cfg hw ho G (Or.inr hnf) hlegal p hp z hint
+
+example : ∃ R, gridWrapAssignBeforeFix 2 GridWitness.cfg GridWitness.G3 = .ok R ∧
+    wrappedPoint GridWitness.cfg (Vec.toFun [300, 300]) (fun _ => 300) ∈ gridSet R :=
+  grid_wrap_sound_wraps_before_fix_partial 2 GridWitness.cfg (by decide) rfl GridWitness.G3 GridWitness.notFlawed3 GridWitness.legal
+    (Vec.toFun [300, 300]) ((C05.memB_iff _ _).mp GridWitness.p3_mem) (fun _ => 300) GridWitness.hint300
+
+/-- **KF-C17-12, the historical witness**: before 3a4d83e, overflow wraps, `A = B` and `3A ≡ 1 (mod 256)`, `A` wrapped to
+unsigned 8 bits: `frequency_no_check` reports frequency `256/3` and the representative `1/3`; the unchanged-grid branch
+only added `A ≡ 0 (mod 1)`, the result was `{A = B, A ≡ 171 (mod 256)}`; the point `(-341,-341)` wraps to `(171,-341)`,
+which was lost.  (A library without the repair returns exactly this: case `gp8` of the harness; the check then reports
+a VIOLATION and measures the variant.) -/
+theorem grid_wrap_sound_wraps_before_fix_fails :
     ¬ ∀ (n : Nat) (cfg : WrapCfg) (G : GridGens), 0 < cfg.w → cfg.o = .wraps → GridWrapLegal n cfg →
       ∀ (p : Nat → Rat), p ∈ gridSet G → ∀ (z : Nat → Int), (∀ i ∈ cfg.vars, p i = (z i : Rat)) →
-      ∃ R, gridWrapAssign n cfg G = .ok R ∧ wrappedPoint cfg p z ∈ gridSet R := by
+      ∃ R, gridWrapAssignBeforeFix n cfg G = .ok R ∧ wrappedPoint cfg p z ∈ gridSet R := by
   intro h
   obtain ⟨R, hR, hmem⟩ := h 2 GridWitness.cfg GridWitness.G (by decide) rfl GridWitness.legal
-    (Vec.toFun [-341, -341]) ((C05.memB_iff _ _).mp GridWitness.p_mem) (fun _ => -341)
-    (by intro i hi
-        simp only [GridWitness.cfg, List.mem_cons, List.mem_nil_iff, or_false] at hi
-        subst hi; simp [Vec.toFun])
-  rw [GridWitness.outcome] at hR
+    (Vec.toFun [-341, -341]) ((C05.memB_iff _ _).mp GridWitness.p_mem) (fun _ => -341) GridWitness.hint341
+  rw [GridWitness.outcome_before_fix] at hR
   cases hR
   have himg : wrappedPoint GridWitness.cfg (Vec.toFun [-341, -341]) (fun _ => -341) = Vec.toFun [171, -341] := by
     funext i
@@ -141,15 +183,6 @@ theorem grid_wrap_sound_wraps_fails :
   have := (C05.memB_iff _ _).mpr hmem
   rw [GridWitness.img_not_mem] at this
   cases this
-
-/-- non-vacuity of `grid_wrap_sound_wraps_partial`: a relational grid of frequency 300 > 2⁸ (the seeded change S-C17-2) -/
-example : ∃ R, gridWrapAssign 2 GridWitness.cfg GridWitness.G3 = .ok R ∧
-    wrappedPoint GridWitness.cfg (Vec.toFun [300, 300]) (fun _ => 300) ∈ gridSet R :=
-  grid_wrap_sound_wraps_partial 2 GridWitness.cfg (by decide) rfl GridWitness.G3 GridWitness.notFlawed3 GridWitness.legal
-    (Vec.toFun [300, 300]) ((C05.memB_iff _ _).mp GridWitness.p3_mem) (fun _ => 300)
-    (by intro i hi
-        simp only [GridWitness.cfg, List.mem_cons, List.mem_nil_iff, or_false] at hi
-        subst hi; simp [Vec.toFun])
 
 /-! ## `OVERFLOW_UNDEFINED` -/
 
@@ -163,16 +196,8 @@ theorem grid_wrap_sound_undefined (n : Nat) (cfg : WrapCfg) (hw : 0 < cfg.w) (ho
     (p' : Nat → Rat) (hoff : ∀ i, i ∉ cfg.vars → p' i = p i)
     (hon : ∀ i ∈ cfg.vars, (inRange cfg.r cfg.w (z i) ∧ p' i = (z i : Rat)) ∨
       (¬ inRange cfg.r cfg.w (z i) ∧ ∃ z' : Int, inRange cfg.r cfg.w z' ∧ p' i = (z' : Rat))) :
-    ∃ R, gridWrapAssign n cfg G = .ok R ∧ p' ∈ gridSet R := by
-  rw [← outcome_noguard n cfg G hlegal]
-  apply gridWrapAssign_sound n { cfg with guard := none } hw G
-    (flawed_of_not_wraps _ G (by simp [ho])) ⟨fun cs h => (by cases h), hlegal.2⟩ p _ hp
-  refine ⟨hoff, ?_, ?_⟩
-  · intro i hi
-    refine ⟨z i, hint i hi, ?_⟩
-    simp only [ho]
-    exact hon i hi
-  · intro cs h; cases h
+    ∃ R, gridWrapAssign n cfg G = .ok R ∧ p' ∈ gridSet R :=
+  undefined_V repaired n cfg hw ho G hlegal p hp z hint p' hoff hon
 
 /-- `{200}` to signed 8 bits: 200 overflows, every in-range integer (e.g. −7) is in the result -/
 example : ∃ R, gridWrapAssign 1 ⟨[0], 8, .signed, .undefined, none, 16, false⟩ (.gens { pt := [200], params := [], lines := [] }) = .ok R ∧
@@ -199,16 +224,8 @@ theorem grid_wrap_sound_impossible (n : Nat) (cfg : WrapCfg) (hw : 0 < cfg.w) (h
     (hlegal : GridWrapLegal n cfg)
     (p : Nat → Rat) (hp : p ∈ gridSet G) (z : Nat → Int) (hint : ∀ i ∈ cfg.vars, p i = (z i : Rat))
     (hin : ∀ i ∈ cfg.vars, inRange cfg.r cfg.w (z i)) :
-    ∃ R, gridWrapAssign n cfg G = .ok R ∧ p ∈ gridSet R := by
-  rw [← outcome_noguard n cfg G hlegal]
-  apply gridWrapAssign_sound n { cfg with guard := none } hw G
-    (flawed_of_not_wraps _ G (by simp [ho])) ⟨fun cs h => (by cases h), hlegal.2⟩ p _ hp
-  refine ⟨fun _ _ => rfl, ?_, ?_⟩
-  · intro i hi
-    refine ⟨z i, hint i hi, ?_⟩
-    simp only [ho]
-    exact ⟨hin i hi, hint i hi⟩
-  · intro cs h; cases h
+    ∃ R, gridWrapAssign n cfg G = .ok R ∧ p ∈ gridSet R :=
+  impossible_V repaired n cfg hw ho G hlegal p hp z hint hin
 
 /-- the witness of the repaired KF-C17-4: `A ≡ 0 (mod 128)` to unsigned 8 bits keeps 128 -/
 example : ∃ R, gridWrapAssign 1 ⟨[0], 8, .unsigned, .impossible, none, 16, false⟩ (.gens { pt := [0], params := [[128]], lines := [] }) = .ok R ∧
@@ -229,42 +246,48 @@ theorem grid_wrap_dimension_exception (n : Nat) (cfg : WrapCfg) (G : GridGens) :
 
 example : gridWrapAssign 1 ⟨[1], 8, .unsigned, .wraps, none, 16, false⟩ (univ 1) = .dimensionIncompatible := by decide +kernel
 
-/-- **KF-C17-13**: a legal call can leave through `throw_invalid_generator` of `add_grid_generator` (Grid_public.cc:1311):
-`A ∈ (1/2)ℤ`, `B = A + 1/2`, both wrapped, overflow wraps — the integrality congruences empty the receiver inside the
-loop, the next `add_grid_generator(parameter(2^w·B))` throws `std::invalid_argument`. -/
-theorem grid_wrap_throws_fails :
-    ¬ ∀ (n : Nat) (cfg : WrapCfg) (G : GridGens), GridWrapLegal n cfg → ∀ l, gridWrapAssign n cfg G ≠ .invalidGenerator l := by
-  intro h
-  exact h 2 GridWitness.cfg2 GridWitness.G2 GridWitness.legal2 .empty GridWitness.outcome2
+/-- **grid_wrap_never_throws**: a legal call returns normally (every overflow mode; since 4614ba1 the function returns
+when the integrality congruences have emptied the receiver) -/
+theorem grid_wrap_never_throws (n : Nat) (cfg : WrapCfg) (G : GridGens) (hlegal : GridWrapLegal n cfg) :
+    ∃ R, gridWrapAssign n cfg G = .ok R :=
+  no_throw_V repaired n cfg G (Or.inl rfl) hlegal
 
-/-- the exception is possible only when overflow wraps; the receiver is left empty; and (outside the branch of KF-C17-12)
-only when no point of the argument has a wrapped image at all, so that no image is lost -/
-theorem grid_wrap_throws_only_without_images (n : Nat) (cfg : WrapCfg) (hw : 0 < cfg.w) (G l : GridGens)
-    (h : gridWrapAssign n cfg G = .invalidGenerator l) :
+/-- the witness of KF-C17-13 now returns the empty grid -/
+example : gridWrapAssign 2 GridWitness.cfg2 GridWitness.G2 = .ok .empty := by decide +kernel
+
+/-- every variant returns normally on a legal call when the repair of KF-C17-13 is present or overflow does not wrap -/
+theorem grid_wrap_no_throw_variant (fx : Repairs) (n : Nat) (cfg : WrapCfg) (G : GridGens)
+    (h : fx.kf13 = true ∨ cfg.o ≠ .wraps) (hlegal : GridWrapLegal n cfg) : ∃ R, gridWrapAssignV fx n cfg G = .ok R :=
+  no_throw_V fx n cfg G h hlegal
+
+example : ∃ R, gridWrapAssignBeforeFix 2 { GridWitness.cfg2 with o := .undefined } GridWitness.G2 = .ok R :=
+  grid_wrap_no_throw_variant beforeFix 2 _ _ (Or.inr (by decide)) GridWitness.legal2
+
+/-! ### the function before the repair 4614ba1 (historical witness of KF-C17-13) -/
+
+/-- **KF-C17-13, the historical witness**: before 4614ba1 a legal call could leave through `throw_invalid_generator` of
+`add_grid_generator` (Grid_public.cc:1311): `A ∈ (1/2)ℤ`, `B = A + 1/2`, both wrapped, overflow wraps — the integrality
+congruences empty the receiver inside the loop, the next `add_grid_generator(parameter(2^w·B))` threw
+`std::invalid_argument`. -/
+theorem grid_wrap_throws_before_fix_fails :
+    ¬ ∀ (n : Nat) (cfg : WrapCfg) (G : GridGens), GridWrapLegal n cfg → ∀ l, gridWrapAssignBeforeFix n cfg G ≠ .invalidGenerator l := by
+  intro h
+  exact h 2 GridWitness.cfg2 GridWitness.G2 GridWitness.legal2 .empty GridWitness.outcome2_before_fix
+
+/-- before the repair the exception was possible only when overflow wraps; the receiver was left empty; and (outside the
+branch of KF-C17-12) only when no point of the argument had a wrapped image at all, so that no image was lost -/
+theorem grid_wrap_throws_before_fix_only_without_images (n : Nat) (cfg : WrapCfg) (hw : 0 < cfg.w) (G l : GridGens)
+    (h : gridWrapAssignBeforeFix n cfg G = .invalidGenerator l) :
     gridSet l = ∅ ∧ cfg.o = .wraps ∧
       (flawed cfg G = false → GridWrapLegal n cfg → ∀ p ∈ gridSet G, ∀ p', p' ∉ Spec.wrapImages cfg p) := by
-  obtain ⟨he, ho⟩ := gridWrapAssign_invalidGenerator n cfg G l h
+  obtain ⟨he, ho⟩ := gridWrapAssignBeforeFix_invalidGenerator n cfg G l h
   refine ⟨(C05.isEmpty_iff l).mp he, ho, ?_⟩
   intro hnf hlegal p hp p' himg
-  obtain ⟨R, hR, _⟩ := gridWrapAssign_sound n cfg hw G hnf hlegal p p' hp himg
+  obtain ⟨R, hR, _⟩ := gridWrapAssignBeforeFix_sound n cfg hw G hnf hlegal p p' hp himg
   rw [h] at hR; cases hR
 
-/-- `OVERFLOW_UNDEFINED` and `OVERFLOW_IMPOSSIBLE` never throw on a legal call -/
-theorem grid_wrap_no_throw_unless_wraps (n : Nat) (cfg : WrapCfg) (G : GridGens) (ho : cfg.o ≠ .wraps)
-    (hlegal : GridWrapLegal n cfg) : ∃ R, gridWrapAssign n cfg G = .ok R := by
-  cases hout : gridWrapAssign n cfg G with
-  | ok R => exact ⟨R, rfl⟩
-  | dimensionIncompatible =>
-    exfalso
-    rcases (gridWrapAssign_dim n cfg G).mp hout with h | ⟨_, h⟩
-    · unfold guardTooBig at h
-      cases hg : cfg.guard with
-      | none => rw [hg] at h; cases h
-      | some cs => rw [hg] at h; have := hlegal.1 cs hg; simp only [decide_eq_true_eq] at h; omega
-    · have := hlegal.2; omega
-  | invalidGenerator l => exact absurd (gridWrapAssign_invalidGenerator n cfg G l hout).2 ho
-
-example : ∃ R, gridWrapAssign 2 { GridWitness.cfg2 with o := .undefined } GridWitness.G2 = .ok R :=
-  grid_wrap_no_throw_unless_wraps 2 _ _ (by decide) GridWitness.legal2
+example : gridSet (.empty : GridGens) = ∅ ∧ GridWitness.cfg2.o = .wraps :=
+  ⟨(grid_wrap_throws_before_fix_only_without_images 2 GridWitness.cfg2 (by decide) GridWitness.G2 .empty GridWitness.outcome2_before_fix).1,
+   (grid_wrap_throws_before_fix_only_without_images 2 GridWitness.cfg2 (by decide) GridWitness.G2 .empty GridWitness.outcome2_before_fix).2.1⟩
 
 end C17
